@@ -51,6 +51,8 @@ func histories(tier string) []history {
 		{Name: "2-serial-stream", Stream: true, Groups: [][]execSpec{{e("r1")}, {e("r2")}}},
 		{Name: "2-concurrent-stream", Stream: true, Groups: [][]execSpec{{e("r1"), e("r2")}}},
 		{Name: "2-concurrent-mixed", Groups: [][]execSpec{{{RunID: "r1", ToStep: 1, ToClose: "after", FromStep: 1, WantFrom: true}, {RunID: "r2", StepFatal: true}}}},
+		{Name: "2-concurrent-same-id", Groups: [][]execSpec{{e("r1"), e("r1")}}},
+		{Name: "2-serial-same-id", Groups: [][]execSpec{{e("r1")}, {e("r1")}}},
 		{Name: "3-serial", Groups: [][]execSpec{{e("r1")}, {e("r2")}, {e("r3")}}},
 		{Name: "2-concurrent-then-1", Groups: [][]execSpec{{e("r1"), e("r2")}, {e("r3")}}},
 		{Name: "1-then-2-concurrent", Groups: [][]execSpec{{e("r1")}, {e("r2"), e("r3")}}},
@@ -189,14 +191,43 @@ func judge(h history, r *mcrt.Result) (string, []mc.Finding) {
 		if o.closeErr != nil {
 			add("Close returned an error on a healthy connection", o.closeErr.Error())
 		}
+		calls := map[string]int{}
+		for _, g := range h.Groups {
+			for _, x := range g {
+				calls[x.RunID]++
+			}
+		}
+		judged := map[string]bool{}
 		for _, g := range h.Groups {
 			for _, x := range g {
 				rs := o.results[x.RunID]
-				if len(rs) != 1 {
-					add("Execute did not return exactly once", fmt.Sprintf("run %s returned %d times", x.RunID, len(rs)))
+				if len(rs) != calls[x.RunID] {
+					add("Execute did not return exactly once", fmt.Sprintf("%d call(s) for run %s returned %d times", calls[x.RunID], x.RunID, len(rs)))
 					continue
 				}
+				if judged[x.RunID] {
+					continue
+				}
+				judged[x.RunID] = true
 				res := rs[0]
+				if calls[x.RunID] > 1 {
+					// the same run id used twice: the call that finds the id in flight may be refused, the other one (or both, if
+					// they did not overlap) must deliver the run's result
+					ok := 0
+					for _, r := range rs {
+						if r.Error == nil {
+							ok++
+							res = r
+						}
+					}
+					if ok == 0 {
+						add("no Execute of a run id used twice delivered its result", fmt.Sprintf("run %s: %v / %v", x.RunID, rs[0].Error, rs[1].Error))
+						continue
+					}
+					if len(g) == 1 && ok != len(rs) {
+						add("Execute failed on a healthy connection", fmt.Sprintf("run id %s reused after its first run had returned: %v / %v", x.RunID, rs[0].Error, rs[1].Error))
+					}
+				}
 				if x.StepFatal {
 					if res.Error == nil {
 						add("step-fatal error not reported to its Execute", x.RunID)
